@@ -13,6 +13,7 @@ import (
 	"os/exec"
 	"path/filepath"
 	"sort"
+	"strconv"
 	"strings"
 	"syscall"
 	"time"
@@ -29,6 +30,9 @@ const (
 // ModulePath is the import path prefix of every workload.
 const ModulePath = "example.com"
 
+// ExtPath is the module path of the workload's dependency module.
+const ExtPath = "dep.example"
+
 // WirePath is the import path of the marker package.
 const WirePath = "github.com/google/wire"
 
@@ -37,6 +41,7 @@ type World struct {
 	Root    string // scratch directory owning everything
 	Layout  string
 	AppDir  string // directory of the example.com module / GOPATH package root
+	ExtDir  string // where the dependency module dep.example lives ("" if none)
 	WireDir string // where the marker package lives
 	Gopath  string
 	Home    string
@@ -51,7 +56,7 @@ type File struct {
 // New creates a world under root with the given layout. sub is an extra path
 // (possibly several segments) between root and the tree so that checkout
 // location can be varied.
-func New(root, layout, sub string, marker []byte, files []File) (*World, error) {
+func New(root, layout, sub string, marker []byte, files []File, ext ...File) (*World, error) {
 	w := &World{Root: root, Layout: layout}
 	base := filepath.Join(root, filepath.FromSlash(sub))
 	w.Home = filepath.Join(root, "home")
@@ -86,9 +91,38 @@ func New(root, layout, sub string, marker []byte, files []File) (*World, error) 
 	if err := os.WriteFile(filepath.Join(w.WireDir, "wire.go"), marker, 0666); err != nil {
 		return nil, err
 	}
+	// the dependency module dep.example, if the workload has one
+	extPkgs := map[string]bool{}
+	if len(ext) > 0 {
+		switch layout {
+		case LayoutMod:
+			w.ExtDir = filepath.Join(base, "dep", "ext")
+		case LayoutGopath:
+			w.ExtDir = filepath.Join(w.Gopath, "src", ExtPath)
+		default:
+			w.ExtDir = filepath.Join(w.AppDir, "vendor", ExtPath)
+		}
+		for _, f := range ext {
+			p := filepath.Join(w.ExtDir, filepath.FromSlash(f.Path))
+			if err := os.MkdirAll(filepath.Dir(p), 0777); err != nil {
+				return nil, err
+			}
+			if err := os.WriteFile(p, f.Data, 0666); err != nil {
+				return nil, err
+			}
+			extPkgs[ExtPath+"/"+filepath.ToSlash(filepath.Dir(f.Path))] = true
+		}
+	}
 	switch layout {
 	case LayoutMod:
-		gm := fmt.Sprintf("module %s\n\ngo 1.19\n\nrequire %s v0.1.0\n\nreplace %s => %s\n", ModulePath, WirePath, WirePath, w.WireDir)
+		gm := fmt.Sprintf("module %s\n\ngo 1.19\n\nrequire %s v0.1.0\n\nreplace %s => %s\n", ModulePath, WirePath, WirePath, modPathQuote(w.WireDir))
+		if len(ext) > 0 {
+			gm += fmt.Sprintf("\nrequire %s v0.1.0\n\nreplace %s => %s\n", ExtPath, ExtPath, modPathQuote(w.ExtDir))
+			egm := fmt.Sprintf("module %s\n\ngo 1.19\n\nrequire %s v0.1.0\n", ExtPath, WirePath)
+			if err := os.WriteFile(filepath.Join(w.ExtDir, "go.mod"), []byte(egm), 0666); err != nil {
+				return nil, err
+			}
+		}
 		if err := os.WriteFile(filepath.Join(w.AppDir, "go.mod"), []byte(gm), 0666); err != nil {
 			return nil, err
 		}
@@ -97,10 +131,19 @@ func New(root, layout, sub string, marker []byte, files []File) (*World, error) 
 		}
 	case LayoutModVendor:
 		gm := fmt.Sprintf("module %s\n\ngo 1.19\n\nrequire %s v0.1.0\n", ModulePath, WirePath)
+		mt := fmt.Sprintf("# %s v0.1.0\n## explicit; go 1.19\n%s\n", WirePath, WirePath)
+		if len(ext) > 0 {
+			gm += fmt.Sprintf("\nrequire %s v0.1.0\n", ExtPath)
+			var ps []string
+			for p := range extPkgs {
+				ps = append(ps, p)
+			}
+			sort.Strings(ps)
+			mt = fmt.Sprintf("# %s v0.1.0\n## explicit; go 1.19\n%s\n", ExtPath, strings.Join(ps, "\n")) + mt
+		}
 		if err := os.WriteFile(filepath.Join(w.AppDir, "go.mod"), []byte(gm), 0666); err != nil {
 			return nil, err
 		}
-		mt := fmt.Sprintf("# %s v0.1.0\n## explicit\n%s\n", WirePath, WirePath)
 		if err := os.WriteFile(filepath.Join(w.AppDir, "vendor", "modules.txt"), []byte(mt), 0666); err != nil {
 			return nil, err
 		}
@@ -111,6 +154,14 @@ func New(root, layout, sub string, marker []byte, files []File) (*World, error) 
 		}
 	}
 	return w, nil
+}
+
+// modPathQuote quotes a file path for go.mod when it needs quoting.
+func modPathQuote(p string) string {
+	if strings.ContainsAny(p, " \t\"'`") {
+		return strconv.Quote(p)
+	}
+	return p
 }
 
 // WriteFile writes a file relative to the app dir.
@@ -349,6 +400,9 @@ func Delta(a, b Snapshot) []string {
 func (w *World) Scrub(s string) string {
 	s = strings.ReplaceAll(s, w.AppDir, "$APP")
 	s = strings.ReplaceAll(s, w.WireDir, "$WIRE")
+	if w.ExtDir != "" {
+		s = strings.ReplaceAll(s, w.ExtDir, "$EXT")
+	}
 	s = strings.ReplaceAll(s, w.Root, "$ROOT")
 	return s
 }
